@@ -3,10 +3,18 @@
    method sptensor.permute / ktensor.permute (Gen/GenSptensor4.v, Gen/GenKtensor4.v; `self` is a record of Np/NpZ3.v).
    Definitions only; Proofs/C07Gen4.v ties them to permute_sp_req / permute_k_req of Model/C07Req.v. *)
 From Coq Require Import List ZArith Bool.
-From PV Require Import Np.NpZ Np.NpZ2 Np.NpZ3 Np.NpZ3b Gen.GenUtils3b Gen.GenSptensor4 Gen.GenKtensor4 Model.C07Req.
+From PV Require Import Np.NpZ Np.NpZ2 Np.NpZ3 Np.NpZ3b Gen.GenUtils3b Gen.GenSptensor4 Gen.GenKtensor4 Model.C07Req Model.C07W5.
 Import ListNotations.
 
+(* sptensor.permute looks at the dtype of the parsed order (`order.dtype == bool`, /repo 9c8fdd5): the generated method takes
+   the 0 / 1 vector of a boolean order together with the flag `true`; an integer order goes in with `false`; any other parsed
+   array (floats) never reaches a result (numpy refuses it as a column index) *)
 Definition sptensor_permute_req (self : sptz) (x : pyshp) : res sptz :=
-  match order_of x with Some pz => sptensor_permute self pz | None => Err end.
+  match bool_order_of x with
+  | Some bz => sptensor_permute self bz true
+  | None => match order_of x with Some pz => sptensor_permute self pz false | None => Err end
+  end.
+(* ktensor.permute takes the entries of a boolean order as the numbers 1 / 0 (order.tolist(), list indexing): order_of_k of
+   Model/C07W5.v; on integer orders order_of_k = order_of *)
 Definition ktensor_permute_req (self : ktz) (x : pyshp) : res ktz :=
-  match order_of x with Some pz => ktensor_permute self pz | None => Err end.
+  match order_of_k x with Some pz => ktensor_permute self pz | None => Err end.
